@@ -166,7 +166,12 @@ impl<'a> El<'a> {
         if !in_domain(op, &ts) {
             return None;
         }
-        match self.m.eval(op, args) {
+        let k0 = crate::ops::kink_count();
+        let r = self.m.eval(op, args);
+        if crate::ops::kink_count() > k0 && !args.iter().all(|&h| self.m.node_of(h).exact) {
+            return None;
+        }
+        match r {
             Ok(t) => {
                 if t.numel() <= self.cfg.max_elems && t.all_finite() && t.vals.iter().all(|x| x.vm <= self.cfg.max_abs) {
                     Some(t)
